@@ -250,7 +250,7 @@ func driverOrder(ctx context.Context, st storage.Store, lo *storage.LookupOption
 	return out
 }
 
-var subjects = [][2]string{{"/u", "a"}, {"/u", "b"}, {"/u", "c"}, {"/t", "d"}, {"/t", "a"}, {"/u/x", "a"}, {"/u", "al"}, {"/u/x", "al"}, {"/ux", "a"}}
+var subjects = [][2]string{{"/u", "a"}, {"/u", "b"}, {"/u", "c"}, {"/t", "d"}, {"/t", "a"}, {"/u/x", "a"}, {"/u", "al"}, {"/u/x", "al"}, {"/ux", "a"}, {"/t", "ab"}, {"/ta", "b"}}
 
 func genObject(r *rand.Rand, kind string) *triple.Object {
 	c := genCell(r, kind)
